@@ -463,11 +463,20 @@ pub fn gen_node(rng: &mut Rng, thorough: bool) -> Vec<u64> {
     let mut opening = [false; NPEERS];
     let mut out = [false; NPEERS];
     let mut pend = [0usize; NPEERS];
+    // half of the cases also move the connections and the dial answers
+    let service = rng.chance(50);
+    let mut conn = [1u8; NPEERS];
     for _ in 0..nops {
         let p = rng.below(NPEERS as u64) as usize;
         let r = rng.below(100);
         // steer towards meaningful operations, keep a few misplaced ones
-        let op = if opening[p] && rng.chance(45) {
+        let op = if service && rng.chance(28) {
+            if conn[p] == 0 {
+                rng.pick(&[9u64, 9, 11, 11, 12, 12, 12, 8])
+            } else {
+                rng.pick(&[8u64, 8, 10, 12, 12, 11, 9])
+            }
+        } else if opening[p] && rng.chance(45) {
             6
         } else if !inb[p] && r < 25 {
             1
@@ -527,7 +536,26 @@ pub fn gen_node(rng: &mut Rng, thorough: bool) -> Vec<u64> {
                 }
             }
             6 => gen_carrier(rng, true, &mut c),
-            _ => gen_carrier(rng, false, &mut c),
+            7 => gen_carrier(rng, false, &mut c),
+            8 => {
+                if conn[p] != 0 {
+                    conn[p] = 0;
+                    inb[p] = false;
+                    opening[p] = false;
+                    out[p] = false;
+                    pend[p] = 0;
+                }
+            }
+            9 =>
+                if conn[p] == 0 {
+                    conn[p] = 1;
+                },
+            10 =>
+                if conn[p] == 1 {
+                    conn[p] = 2;
+                },
+            11 => {}
+            _ => c.push(rng.below(4)),
         }
         // bookkeeping of the generator only (a rough copy of the loop's state)
         match op {
@@ -630,13 +658,16 @@ pub fn run_pres(c: &[u64]) -> Option<Vec<u64>> {
 // ------------------------------------------------------------------ kind 4
 
 struct Node {
-    _manager: TransportManager,
+    manager: TransportManager,
     input: VerifServiceInput,
     handle: BitswapHandle,
     fut: Pin<Box<dyn Future<Output = ()>>>,
     finished: bool,
     peers: Vec<PeerId>,
     conns: Vec<VerifConnection>,
+    /// the service's connection to the peer: 0 none, 1 usable, 2 killed
+    conn_state: Vec<u8>,
+    next_conn: usize,
     inbound: Vec<Option<Carrier>>,
     /// carrier of the outbound substream last given to the loop, per peer
     outbound: Vec<Option<Carrier>>,
@@ -652,6 +683,10 @@ fn mk_peer(i: u64) -> PeerId {
     // fine because peers appear in traces by index only
     let _ = i;
     PeerId::random()
+}
+
+fn peer_addr(i: usize) -> multiaddr::Multiaddr {
+    format!("/ip4/10.0.0.{}/tcp/{}", i + 1, 4000 + i).parse().unwrap()
 }
 
 impl Node {
@@ -675,13 +710,15 @@ impl Node {
             conns.push(input.connection_established(*p, i + 1, addr, 256)?);
         }
         let mut n = Node {
-            _manager: manager,
+            manager,
             input,
             handle,
             fut,
             finished: false,
             peers,
             conns,
+            conn_state: vec![1; NPEERS],
+            next_conn: 10,
             inbound: vec![None; NPEERS],
             outbound: vec![None; NPEERS],
             open_req: vec![None; NPEERS],
@@ -928,6 +965,7 @@ async fn run_node_async(c: &[u64]) -> Option<Vec<u64>> {
         let peer = node.peers[p];
         let mut in_msg: Option<InMsg> = None;
         match op {
+            1 if node.conn_state[p] == 0 => {}
             1 => {
                 let carrier = Carrier::default();
                 node.next_inbound += 1;
@@ -1068,6 +1106,36 @@ async fn run_node_async(c: &[u64]) -> Option<Vec<u64>> {
                     c.set_write(if mode == 0 { None } else { Some(budget) }, mode == 2);
                 }
             }
+            8 =>
+                if node.conn_state[p] != 0 {
+                    node.input.connection_closed(peer, &node.conns[p]);
+                    node.conn_state[p] = 0;
+                    node.inbound[p] = None;
+                    node.outbound[p] = None;
+                    node.open_req[p] = None;
+                },
+            9 =>
+                if node.conn_state[p] == 0 {
+                    node.next_conn += 1;
+                    let id = node.next_conn;
+                    node.conns[p] = node.input.connection_established(peer, id, peer_addr(p), 256)?;
+                    node.conn_state[p] = 1;
+                },
+            10 =>
+                if node.conn_state[p] == 1 {
+                    node.conns[p].kill();
+                    node.conn_state[p] = 2;
+                },
+            11 => {
+                node.input.dial_failure(peer, vec![peer_addr(p)]);
+            }
+            12 => {
+                let tag = rd.n()? as usize;
+                if tag > 3 {
+                    return None;
+                }
+                node.manager.verif_force_peer(peer, tag, peer_addr(p));
+            }
             _ => return None,
         }
         let evs = node.settle().await;
@@ -1085,4 +1153,83 @@ pub fn run_node(c: &[u64]) -> Option<Vec<u64>> {
     let rt = tokio::runtime::Builder::new_current_thread().enable_time().start_paused(true).build().unwrap();
     // unconstrained: tokio's cooperative budget would make channel polls return Pending spuriously
     rt.block_on(tokio::task::unconstrained(run_node_async(c)))
+}
+
+// ------------------------------------------------------------------ kind 6: want batching
+
+pub fn gen_wants(rng: &mut Rng, thorough: bool) -> Vec<u64> {
+    let mm = rng.pick(&[0u64, 1, 2, 3, 40, 43, 44, 45, 46, 47, 48, 90, 100, 128, 131, 132, 133, 256, 256, 1000, 1000, 30_000, 1 << 40]);
+    let n = rng.range(0, if thorough { 300 } else { 60 });
+    let mut c = vec![6, mm, n];
+    for _ in 0..n {
+        let s = gen_cid(rng);
+        put_cidspec(s.0, s.1, s.2, &s.3, &mut c);
+        c.push(rng.below(2));
+    }
+    c
+}
+
+/// The `loop { .. }` of send_request over the hooked functions.
+pub fn run_wants(c: &[u64]) -> Option<Vec<u64>> {
+    let mut rd = Rd { c, i: 1 };
+    let mm = rd.n()? as usize;
+    let n = rd.n()? as usize;
+    if n > c.len() {
+        return None;
+    }
+    let mut orig = Vec::new();
+    for _ in 0..n {
+        let cid = rd.cid()?;
+        let w = match rd.n()? {
+            0 => WantType::Block,
+            1 => WantType::Have,
+            _ => return None,
+        };
+        orig.push((cid, w));
+    }
+    if rd.i != c.len() {
+        return None;
+    }
+    let mut queue: VecDeque<(Cid, WantType)> = orig.iter().cloned().collect();
+    let mut out = vec![6u64, 0];
+    let mut nb = 0u64;
+    let mut cursor = 0usize;
+    loop {
+        let batch = bs::extract_next_want_batch(&mut queue, mm);
+        nb += 1;
+        if nb > orig.len() as u64 + 2 {
+            out.push(888_888_888);
+            break;
+        }
+        out.push(batch.len() as u64);
+        for b in batch.iter() {
+            let mut id = 777_777_777u64;
+            for j in cursor..orig.len() {
+                if orig[j].0 == b.0 && orig[j].1 == b.1 {
+                    cursor = j + 1;
+                    id = j as u64;
+                    break;
+                }
+            }
+            out.push(id);
+        }
+        let msg = bs::request_message(batch.clone());
+        out.push(msg.len() as u64);
+        let dec = bs::SchemaMessage::decode(&msg[..]).ok()?;
+        let w = dec.wantlist.as_ref()?;
+        out.push(w.entries.len() as u64);
+        for x in w.entries.iter() {
+            put_bytes(&x.block, &mut out);
+            out.extend([x.priority as u32 as u64, x.cancel as u64, x.want_type as u32 as u64, x.send_dont_have as u64]);
+        }
+        out.push(w.full as u64);
+        if !dec.payload.is_empty() || !dec.block_presences.is_empty() {
+            out.push(666_666_666);
+        }
+        if queue.is_empty() {
+            break;
+        }
+    }
+    out[1] = nb;
+    Some(out)
 }
